@@ -5,7 +5,7 @@ wt=$1; id=$2; prop=$3
 out=/verif/seeded/$id; mkdir -p $out
 cd $wt || exit 9
 export CARGO_NET_OFFLINE=true
-demo=$(ls tests/seeded_*.rs | head -1); demoname=$(basename $demo .rs)
+demo=$(ls tests/seeded_*.rs tests/seed_*.rs 2>/dev/null | head -1); demoname=$(basename $demo .rs)
 log=$out/confirm.log; : > $log
 git diff -- src > /tmp/confirm_$id.diff
 cmp -s /tmp/confirm_$id.diff seed/patch.diff || echo "WARNING: working tree diff differs from seed/patch.diff" | tee -a $log
@@ -15,10 +15,10 @@ cargo nextest run --workspace --no-fail-fast --test-threads 8 --offline 2>&1 | g
 mv /tmp/confirm_$id.demo.rs $demo
 fails_with=0; for i in 1 2 3; do timeout 600 cargo test --offline --test $demoname > /tmp/confirm_$id.run 2>&1 || fails_with=$((fails_with+1)); done
 echo "== demo with change: failed $fails_with/3" >> $log; grep -E "^test |panicked" /tmp/confirm_$id.run | head -8 >> $log
-git stash push -q -- src
+git apply -R seed/patch.diff   # (not git stash: the stash is shared between worktrees)
 fails_without=0; for i in 1 2 3; do timeout 600 cargo test --offline --test $demoname > /tmp/confirm_$id.run 2>&1 || fails_without=$((fails_without+1)); done
 echo "== demo without change: failed $fails_without/3" >> $log
-git stash pop -q
+git apply seed/patch.diff
 cp seed/patch.diff $out/patch.diff; cp $demo $out/; cp seed/notes.md $out/notes.md
 rm -f /tmp/confirm_$id.*
 cat $log
